@@ -85,7 +85,7 @@ def explore(m0, series, cfg, threads, bound, max_schedules=20000, recheck_every=
         o, snap = run_schedule(m0, series, cfg, threads, list(prefix), root, trace)
         res['schedules'] += 1
         dec = o.decisions
-        if o.cls.startswith('machinery'):
+        if o.cls.startswith('machinery'):  # exit 3: the schedule script named a worker that was not enabled
             res['machinery'].append('scheduler refused/stalled on %r: %s' % (list(prefix), o.err[-200:]))
             continue
         chosen = tuple(x[2] for x in dec)
